@@ -7,6 +7,7 @@
  *   -DPMODE= 1 C13: NULL query + real call with symbolic capacity, arbitrary bytes
  *            2 C14: valid documents, ample capacity, text == reference rendering
  *            3 C14: binson_parser_print: captured stdout == reference rendering
+ *            4 C17: print(B); print(A, arbitrary bytes); print(B): B's output and result must not depend on A
  *   -DSKELETON: optional, fixes the leading bytes of the document (PRINT-TOKEN queries):
  *            -DSK_BYTES=<comma list> -DSK_LEN=<count>; remaining bytes symbolic
  */
@@ -33,6 +34,7 @@ struct in_s {
     binson_state st0[DEPTH];
     size_t cap;
     char   outgarbage[TCAP > 0 ? TCAP : 1];
+    uint8_t bufa[NB > 0 ? NB : 1];     /* PMODE 4: an unrelated parser's buffer (arbitrary bytes) */
 };
 struct in_s IN;
 #ifdef NATIVE_REPLAY
@@ -126,6 +128,30 @@ void harness(void)
 #else
     COVER(!r1, "main: rejected");
 #endif
+#endif
+
+#if PMODE == 4
+    {
+        EXACT_BYTES(bufa, NB);
+        for (size_t i = 0; i < NB; i++) bufa[i] = IN.bufa[i];
+        binson_state sta[DEPTH];
+        binson_parser pa;
+        pa.state = sta; pa.max_depth = DEPTH;
+        bool inia = (ROOT == 1) ? binson_parser_init_object(&pa, bufa, NB) : binson_parser_init_array(&pa, bufa, NB);
+        (void) inia;
+        char first[FMT_STDOUT_MAX];
+        fmt_stdout_len = 0;
+        bool r1 = binson_parser_print(&p);
+        size_t l1 = fmt_stdout_len;
+        for (size_t i = 0; i < FMT_STDOUT_MAX; i++) first[i] = fmt_stdout[i];
+        fmt_stdout_len = 0;
+        bool ra = binson_parser_print(&pa);          /* may fail half way through: arbitrary bytes */
+        fmt_stdout_len = 0;
+        bool r2 = binson_parser_print(&p);
+        CHECK(r1 == r2 && l1 == fmt_stdout_len, "C17 printing through one parser is not influenced by an earlier print of another parser (result, length)");
+        for (size_t i = 0; i < FMT_STDOUT_MAX; i++) { if (i < l1) CHECK(first[i] == fmt_stdout[i], "C17 printing through one parser is not influenced by an earlier print of another parser (text)"); }
+        COVER(r1 && !ra && l1 >= 2, "main: B printed, unrelated A aborted half way");
+    }
 #endif
 
 #if PMODE == 2 || PMODE == 3
